@@ -99,6 +99,11 @@ type Case struct {
 	P0       [][]FS `json:"p0"`
 	Trace    []Hook `json:"trace"`
 	Tag      string `json:"tag"`
+	// round 6: data sets the SAME estimator object was run on before (em), whether the last data set was written
+	// in place into the vector of the previous run, and the mixture the estimator holds after Estimate returned
+	PreXs   [][]FS `json:"pre_xs,omitempty"`
+	InPlace bool   `json:"in_place,omitempty"`
+	Final   *Hook  `json:"final,omitempty"`
 }
 
 func vec(xs []float64) ad.ConstVector { return ad.NewDenseFloat64Vector(xs) }
@@ -193,7 +198,6 @@ func execute(c *Case) {
 }
 
 func runEM(c *Case, pool tp.ThreadPool) {
-	xs := ffs(c.Xs)
 	ests := make([]st.ScalarEstimator, c.K)
 	for k := 0; k < c.K; k++ {
 		var err error
@@ -206,13 +210,12 @@ func runEM(c *Case, pool tp.ThreadPool) {
 			Die("component estimator: %v", err)
 		}
 	}
-	c.Trace = nil
+	c.Trace, c.Final = nil, nil
 	npar := 1
 	if c.Fam == 3 {
 		npar = c.J
 	}
-	hook := generic.EmHook{Value: func(m generic.BasicMixture, i int, lik, eps float64) {
-		p := m.GetParameters()
+	parse := func(p ad.Vector, i int, lik, eps float64) Hook {
 		h := Hook{I: i, Lik: fs(lik), Eps: fs(eps)}
 		for k := 0; k < c.K; k++ {
 			h.Lw = append(h.Lw, fs(p.At(k).GetFloat64()))
@@ -224,29 +227,66 @@ func runEM(c *Case, pool tp.ThreadPool) {
 			}
 			h.Ps = append(h.Ps, row)
 		}
-		c.Trace = append(c.Trace, h)
-		if len(c.Trace) > 300 {
+		return h
+	}
+	ncalls := 0
+	hook := generic.EmHook{Value: func(m generic.BasicMixture, i int, lik, eps float64) {
+		c.Trace = append(c.Trace, parse(m.GetParameters(), i, lik, eps))
+		ncalls++
+		if ncalls > 300 {
 			panic("EM driver does not stop (likelihood NaN or change never below epsilon)")
 		}
 	}}
+	// the data sets of the earlier runs on the same object, then the case's own; with InPlace the last data set is
+	// written into the vector of the run before it (same length) and installed again
+	runs := append(append([][]FS{}, c.PreXs...), c.Xs)
 	var err error
+	var getp func() ad.Vector
+	var run func(x ad.ConstVector) error
 	if c.Summ {
 		var e *se.DiscreteMixtureEstimator
 		if e, err = se.NewDiscreteMixtureEstimator(ffs(c.W0), ests, c.Eps.f(), c.MaxSteps, hook); err == nil {
 			// EstimateOnData is inherited from MixtureEstimator and would install the plain data set:
 			// the summarized (value, count) data set is only used through SetData + Estimate
-			if err = e.SetData(vec(xs), len(xs)); err == nil {
-				err = e.Estimate(nil, pool)
+			run = func(x ad.ConstVector) error {
+				if err := e.SetData(x, x.Dim()); err != nil {
+					return err
+				}
+				return e.Estimate(nil, pool)
 			}
+			getp = e.GetParameters
 		}
 	} else {
 		var e *se.MixtureEstimator
 		if e, err = se.NewMixtureEstimator(ffs(c.W0), ests, c.Eps.f(), c.MaxSteps, hook); err == nil {
-			err = e.EstimateOnData(vec(xs), nil, pool)
+			run = func(x ad.ConstVector) error { return e.EstimateOnData(x, nil, pool) }
+			getp = e.GetParameters
+		}
+	}
+	if err == nil {
+		var prev ad.DenseFloat64Vector
+		for i, d := range runs {
+			c.Trace, ncalls = nil, 0
+			cur := ad.NewDenseFloat64Vector(ffs(d))
+			if c.InPlace && i == len(runs)-1 && prev != nil && len(prev) == len(cur) {
+				copy(prev, cur)
+				cur = prev
+			}
+			err = run(cur)
+			if err != nil && i < len(runs)-1 {
+				// an earlier run failed: the object is not in a state the case is about
+				c.Err = true
+				c.Tag += "|pre-run-error"
+				return
+			}
+			prev = cur
 		}
 	}
 	if err != nil {
 		c.Err = true
+	} else if getp != nil {
+		h := parse(getp(), -1, math.NaN(), math.NaN())
+		c.Final = &h
 	}
 	// a component without any responsibility mass (sum of its weights = 0) makes its estimator return NaN
 	// parameters without an error, and every later iteration NaN: outside the property's quantifier
@@ -718,6 +758,18 @@ func main() {
 		round5(o)
 		return
 	}
+	if strings.HasPrefix(o.Extra, "round6") {
+		round6(o)
+		return
+	}
+	if o.Extra == "hunt6only" { // the round-6 hunt on its own (mutation trials)
+		res := map[string]interface{}{"found": false}
+		hunt6(o, nil, res)
+		b, _ := json.MarshalIndent(res, "", " ")
+		os.MkdirAll(o.Out, 0755)
+		os.WriteFile(filepath.Join(o.Out, "hunt.json"), b, 0644)
+		return
+	}
 	if o.Replay != "" {
 		replay(o)
 		return
@@ -837,6 +889,15 @@ func replay(o Opts) {
 		Die("replay file has no case: %v", err)
 	}
 	switch rpk.Case.Kind {
+	case "seq", "emfinal", "reuse3":
+		var rp6 struct {
+			Case *Case6 `json:"case"`
+		}
+		if err := json.Unmarshal(b, &rp6); err != nil || rp6.Case == nil {
+			Die("replay file has no round-6 case: %v", err)
+		}
+		replay6(o, rp6.Case)
+		return
 	case "nest", "summ":
 		var rp5 struct {
 			Case *Case5 `json:"case"`
